@@ -129,6 +129,10 @@ def run(ctx):
             for st in (1, -1, 0):
                 for k in range(-n, n + 1):
                     ctx.guard(check_case, {"word": wd, "feats": feats_to_json([Feat(1, "u1", (), ((s_, e_, st),))]), "k": k})
+                if 0 <= s_ < e_ <= n:
+                    # the same as a `source` feature (whole-plasmid ones included): mirrored and put on the other strand
+                    ctx.guard(check_case, {"word": wd, "feats": feats_to_json([Feat(0, "u1", (), ((s_, e_, st),))]),
+                                           "k": (s_ + e_) % (n + 1)})
         for a in plain:
             for b in plain:
                 for st, st2 in ((1, 1), (-1, -1), (1, -1)):
